@@ -209,6 +209,9 @@ func kNew(initial string, chanCap int) *kSys {
 	k := &kSys{s: qsched.New(), sid: map[string]int{}, opOf: map[string]string{}, lockN: map[string]int{}, gating: kLockGates}
 	if k.gating {
 		vsync.SetHook(func(kind string) {
+			if kind == "Mutex.Lock" {
+				return // the plot queue's own mutex: not a scheduling point
+			}
 			id := kGoid()
 			k.gmu.Lock()
 			name, ok := k.opOf[id]
